@@ -127,12 +127,15 @@ func (cx *Connection) Write(p []byte) (n int, err error) {
 // a connection is wrapped by a package that does not support
 // our Connection type (for example, `tls.Server()`).
 func (cx *Connection) Wrap(conn net.Conn) *Connection {
+	// conn reads through cx, so any bytes still unread in cx's buffer will be
+	// delivered by conn; handing them to the new connection as well would
+	// deliver them twice (and ahead of what conn has buffered itself).
+	// Only the unused tail of the buffer is reused.
 	return &Connection{
 		Conn:         conn,
 		Context:      cx.Context,
 		Logger:       cx.Logger,
-		buf:          cx.buf,
-		offset:       cx.offset,
+		buf:          cx.buf[len(cx.buf):],
 		matching:     cx.matching,
 		bytesRead:    cx.bytesRead,
 		bytesWritten: cx.bytesWritten,
